@@ -506,17 +506,19 @@ CONFIG_KEYS = ("seg", "tczyx", "zarr_format", "overwrite", "preexisting", "via",
 
 
 def place(rng, shape, frames_labels):
-    """give every (frame,label) 1..3 distinct free pixels"""
+    """give every (frame,label) 1..3 distinct free pixels (fewer when the frame is small: every label of
+    the frame gets at least one)"""
     out = []
     cells = [tuple(int(v) for v in idx) for idx in np.ndindex(*shape)]
     for labels in frames_labels:
+        if len(labels) > len(cells):
+            raise ValueError(f"{len(labels)} labels do not fit into a frame of shape {shape}")
         free = cells[:]
         rng.shuffle(free)
         fr = []
-        for l in labels:
-            k = rng.choice([1, 1, 2, 3])
-            pix = [list(free.pop()) for _ in range(min(k, max(1, len(free) - len(labels))))]
-            fr.append([l, pix])
+        for i, l in enumerate(labels):
+            k = min(rng.choice([1, 1, 2, 3]), len(free) - (len(labels) - i - 1))
+            fr.append([l, [list(free.pop()) for _ in range(k)]])
         out.append(fr)
     return out
 
@@ -575,7 +577,10 @@ def random_case(rng, thorough=False):
     ndim = rng.choice([2, 2, 3])
     T = rng.randint(1, 6 if thorough else 4)
     tracks = random_tracks(rng, T)
-    return build_case(rng, ndim, T, tracks, shuffle=rng.random() < 0.5, drop_orphan_rows=rng.random() < 0.15)
+    shape = None
+    if rng.random() < 0.2:      # a singleton extent somewhere (enough cells for up to 9 labels x 1 pixel)
+        shape = rng.choice([[1, 14], [14, 1]] if ndim == 2 else [[1, 4, 5], [3, 1, 5], [3, 5, 1], [1, 1, 14], [1, 14, 1]])
+    return build_case(rng, ndim, T, tracks, shuffle=rng.random() < 0.5, drop_orphan_rows=rng.random() < 0.15, shape=shape)
 
 
 def templates():
@@ -615,6 +620,34 @@ def exhaustive_cases(rng, thorough):
                            "tif_prefix": rng.choice(["man_track", "mask"]),
                            "geff_arg": rng.choice(["out.zarr/tracks.geff", "out.zarr/tracks"])}
                     c = build_case(rng, ndim, T, tracks, cfg)
+                    c["template"] = name
+                    cases.append(c)
+    return cases
+
+
+SINGLETON_SHAPES = [[1, 5, 6], [3, 1, 5], [3, 4, 1], [1, 1, 6], [1, 4, 1], [2, 1, 1], [1, 1, 1],     # 3-D
+                    [1, 6], [6, 1], [1, 2], [1, 1]]                                                   # 2-D
+
+
+def singleton_shape_cases(rng, thorough):
+    """frames with singleton extents — (1,Y,X), (Z,1,X), (Z,Y,1), (1,1,X), 2-D (1,X), (Y,1), 1x1 / 1x1x1 —
+    and single-pixel regions: the RANK of the frame as stored in the tiff (not its squeezed shape) decides
+    axes t,(z),y,x, the coordinates and the shape of the exported volume"""
+    cases = []
+    for shape in SINGLETON_SHAPES:
+        ncell = int(np.prod(shape))
+        fit = [(n, T, tr) for n, T, tr in templates()
+               if max(len([1 for x in tr if t in x["frames"]]) for t in range(T)) <= ncell]
+        for name, T, tracks in (fit if thorough else rng.sample(fit, min(3, len(fit)))):
+            for seg in ("none", "path", "store"):
+                for tz in ((False, True) if (thorough or seg != "store") else (rng.random() < 0.5,)):
+                    via = "cli" if (seg in ("none", "path") and rng.random() < 0.3) else "api"
+                    cfg = {"seg": seg, "tczyx": tz, "zarr_format": rng.choice([2, 3]), "preexisting": False, "overwrite": False,
+                           "via": via, "geff_type": rng.choice(["path", "str"]),
+                           "track_file": rng.choice(["man_track.txt", "res_track.txt"]),
+                           "tif_prefix": rng.choice(["man_track", "mask"]),
+                           "geff_arg": rng.choice(["out.zarr/tracks.geff", "out.zarr/tracks"])}
+                    c = build_case(rng, len(shape), T, tracks, cfg, shape=list(shape))
                     c["template"] = name
                     cases.append(c)
     return cases
@@ -715,7 +748,8 @@ def run(ck: common.Check):
     ck.rule = ("cases = corpus + 13 lineage templates (single frame, one-row table, gaps, late starts, 1/2/3 "
                "children, chains, two generations) x {2-D,3-D} x segmentation target {none,path,str,store} x "
                "tczyx x zarr_format x {fresh, overwrite, refuse} (all combinations in thorough, 2 sampled per "
-               "template/ndim/target in quick) + conversion histories convert(A, fmt1) -> convert(B, fmt2, overwrite) for all "
+               "template/ndim/target in quick) + frames with singleton extents ((1,Y,X), (Z,1,X), (Z,Y,1), (1,1,X), (1,X), (Y,1), "
+               "1x1, 1x1x1; rank taken from the tiff) x fitting templates x target x tczyx + conversion histories convert(A, fmt1) -> convert(B, fmt2, overwrite) for all "
                "four format pairs x target {none,path,store} x tczyx, geff target as str/Path, API/CLI (warnings recorded) + seeded random lineage forests (1..4(6) frames, labels with gaps, "
                "random pixel sets, shuffled tables, dropped parentless rows, man_track/res_track, API and CLI) + a "
                "malformed stream (absent labels, empty/duplicated rows, no nodes) for the error outcomes + sequences of 2..4 "
@@ -727,6 +761,7 @@ def run(ck: common.Check):
     n_corpus = len(cases)
     cases += exhaustive_cases(ck.rng, thorough)
     cases += history_cases(ck.rng, thorough)
+    cases += singleton_shape_cases(ck.rng, thorough)
     for _ in range(1500 if thorough else 150):
         cases.append(random_case(ck.rng, thorough))
     for _ in range(300 if thorough else 40):
